@@ -397,8 +397,19 @@ func (b *Bitmap) Max() uint64 {
 	}
 
 	hb, c := b.Containers.Last()
-	lb := c.max()
-	return hb<<16 | uint64(lb)
+	if c.N() > 0 {
+		return hb<<16 | uint64(c.max())
+	}
+	// The last container is empty (removals and clearing imports leave empty
+	// containers behind): the maximum is in the last non-empty container.
+	var max uint64
+	citer, _ := b.Containers.Iterator(0)
+	for citer.Next() {
+		if k, c := citer.Value(); c.N() > 0 {
+			max = k<<16 | uint64(c.max())
+		}
+	}
+	return max
 }
 
 // Count returns the number of bits set in the bitmap.
